@@ -213,12 +213,10 @@ func runCluster(t *testing.T, tr *drv.Tracer, sid, n, slot, seed int) bool {
 		}
 	}
 	quorum := (2*n + 2) / 3
-	for i := 1; i <= n; i++ {
-		b, h, err := detHash(got[i].set)
-		if err != nil {
-			return fail(err.Error())
-		}
-		// the hash carried by a quorum of COMMIT messages (same round, distinct members) this node has seen
+	// the hash carried by a quorum of COMMIT messages (same round, distinct members) in a set of sniffed instances;
+	// 0: no quorum visible (a node may decide and end its instance just before the sniffer records the last message it
+	// consumed, so its own view can be one message short), -2: quorums on two different hashes
+	commitOf := func(insts ...*pbv1.SniffedConsensusInstance) int {
 		type key struct {
 			round int64
 			hash  string
@@ -234,10 +232,12 @@ func runCluster(t *testing.T, tr *drv.Tracer, sid, n, slot, seed int) bool {
 			}
 			votes[k][q.GetPeerIdx()] = true
 		}
-		for _, m := range sn[i].GetMsgs() {
-			add(m.GetMsg().GetMsg())
-			for _, j := range m.GetMsg().GetJustification() {
-				add(j)
+		for _, inst := range insts {
+			for _, m := range inst.GetMsgs() {
+				add(m.GetMsg().GetMsg())
+				for _, j := range m.GetMsg().GetJustification() {
+					add(j)
+				}
 			}
 		}
 		commit, agreed := 0, map[string]bool{}
@@ -248,9 +248,25 @@ func runCluster(t *testing.T, tr *drv.Tracer, sid, n, slot, seed int) bool {
 			}
 		}
 		if len(agreed) > 1 {
-			commit = -2 // commit quorums on two different hashes: not a relation the specification knows
+			return -2
 		}
-		tr.Emit(drv.Step{"ev": "Deliver", "node": i, "bytes": whoseBytes(b), "hash": whoseHash(h[:]), "commit": commit})
+
+		return commit
+	}
+	var all []*pbv1.SniffedConsensusInstance
+	for i := 1; i <= n; i++ {
+		all = append(all, sn[i])
+	}
+	for i := 1; i <= n; i++ {
+		b, h, err := detHash(got[i].set)
+		if err != nil {
+			return fail(err.Error())
+		}
+		commit, view := commitOf(sn[i]), "own"
+		if commit == 0 {
+			commit, view = commitOf(all...), "cluster"
+		}
+		tr.Emit(drv.Step{"ev": "Deliver", "node": i, "bytes": whoseBytes(b), "hash": whoseHash(h[:]), "commit": commit, "view": view})
 	}
 
 	return false
